@@ -5,13 +5,241 @@ Refinement of the generator model to the reference algorithm:
 import TlshVerif.Model.Params
 import TlshVerif.Spec.Tlsh
 import TlshVerif.Lemmas.Update
+import TlshVerif.Lemmas.Windows
+import TlshVerif.Lemmas.Buckets
 import TlshVerif.Lemmas.Finalize
+import TlshVerif.Lemmas.Length
+import TlshVerif.Lemmas.Select
+import TlshVerif.Lemmas.Aggregate
 
 namespace TlshVerif.Model
+
+open TlshVerif.Lemmas
 
 /-- The reference result as a model outcome. -/
 def specOutcome : Except GenError Hash → Outcome GenError Hash
   | .ok h => .ok h
   | .error e => .err e
+
+/-- The accumulator step at the reference parameters. -/
+abbrev refStep (cfg : Cfg) (v : Variant) : Acc → List UInt8 → Acc := accStep Ref.params cfg (vparams Ref.params v)
+
+theorem genUpdate_init (cfg : Cfg) (v : Variant) (data : List UInt8) :
+    genUpdate Ref.params cfg v (genInit cfg v) data = ideal (refStep cfg v) (initAcc cfg v) data :=
+  update_init _ _ data
+
+/-- Checksum and bucket array after the input `data` (first 2³² bytes). -/
+theorem ideal_acc_ref (cfg : Cfg) (v : Variant) (hv : v.Valid) (data : List UInt8) :
+    (ideal (refStep cfg v) (initAcc cfg v) data).acc =
+      (Spec.checksum v (data.take (2 ^ 32)),
+        (Spec.keys v (data.take (2 ^ 32))).foldl (increment cfg (vparams Ref.params v))
+          (Array.replicate (physBuckets cfg v) 0)) := by
+  rw [ideal_acc]
+  exact foldl_accStep cfg v hv _ (windows_length _) _ _ (by simp)
+
+theorem buckets_le_256 {v : Variant} (hv : v.Valid) : v.buckets ≤ 256 ∧ v.buckets % 4 = 0 ∧ v.buckets ≥ 4 := by
+  rcases valid_cases hv with h | h | h | h | h <;> subst h <;> decide
+
+theorem physBuckets_ge (cfg : Cfg) {v : Variant} (hv : v.Valid) : v.buckets ≤ physBuckets cfg v := by
+  unfold physBuckets; split
+  · exact Nat.le_refl _
+  · exact (buckets_le_256 hv).1
+
+/-- The bucket counters handed to `finalize` are the reference bucket counts. -/
+theorem bucketData_ideal (cfg : Cfg) (v : Variant) (hv : v.Valid) (data : List UInt8)
+    (hlen : data.length ≤ 2 ^ 32) :
+    (bucketData v (ideal (refStep cfg v) (initAcc cfg v) data)).map UInt32.toNat = Spec.buckets v data := by
+  unfold bucketData
+  rw [ideal_acc_ref cfg v hv data, List.take_of_length_le hlen]
+  simp only []
+  have hsz := foldl_increment_size cfg (vparams Ref.params v) (Spec.keys v data)
+    (Array.replicate (physBuckets cfg v) 0)
+  have hge := physBuckets_ge cfg hv
+  apply List.ext_getElem
+  · simp [Spec.buckets, hsz]; omega
+  · intro i h1 h2
+    have hi : i < v.buckets := by simpa [Spec.buckets] using h2
+    simp only [List.getElem_map, List.getElem_take, Spec.buckets, List.getElem_range, Spec.bucket]
+    have hi' : i < (Array.replicate (physBuckets cfg v) (0 : UInt32)).size := by simp; omega
+    have := foldl_increment_getD cfg (vparams Ref.params v) (Spec.keys v data) _ i hi' (by exact hi)
+    rw [Array.getD_eq_getD_getElem?] at this
+    have hi'' : i < (List.foldl (increment cfg (vparams Ref.params v)) (Array.replicate (physBuckets cfg v) 0)
+        (Spec.keys v data)).size := by rw [hsz]; exact hi'
+    rw [Array.getElem?_eq_getElem hi'', Option.getD_some] at this
+    rw [Array.getElem_toList, this]
+    have z : (Array.replicate (physBuckets cfg v) (0 : UInt32)).getD i 0 = 0 := by
+      rw [Array.getD_eq_getD_getElem?, Array.getElem?_eq_getElem hi', Array.getElem_replicate]; rfl
+    rw [z]
+    simp [UInt32.toNat_ofNat']
+
+theorem finLen_ideal (f : Acc → List UInt8 → Acc) (a0 : Acc) (data : List UInt8) :
+    finLen (ideal f a0 data) = if data.length < 2 ^ 32 then data.length else 2 ^ 32 - 1 := by
+  unfold finLen
+  rw [processedLen_ideal]
+  split <;> rfl
+
+theorem lengthGate_shape (a b m n : Nat) (hab : a ≤ b) (hn : n ≤ m) (o : Options) :
+    lengthGate (if n < a then Validity.tooSmall else if n < b then Validity.validWhenOptimistic
+      else if n ≤ m then Validity.valid else Validity.tooLarge) o =
+      if (n < a ∨ (o.conservative = true ∧ n < b)) ∧ ¬ o.allowSmall = true then some .tooSmall else none := by
+  by_cases h1 : n < a
+  · have h2 : n < b := by omega
+    cases hc : o.conservative <;> cases hs : o.allowSmall <;>
+      simp [lengthGate, Validity.isErrOn, h1, h2, hc, hs]
+  · by_cases h2 : n < b
+    · cases hc : o.conservative <;> cases hs : o.allowSmall <;>
+        simp [lengthGate, Validity.isErrOn, h1, h2, hc, hs]
+    · cases hc : o.conservative <;> cases hs : o.allowSmall <;>
+        simp [lengthGate, Validity.isErrOn, h1, h2, hn, hc, hs]
+
+theorem lengthGate_ref (v : Variant) (hv : v.Valid) (o : Options) (n : Nat) (hn : n ≤ 4224281216) :
+    lengthGate (validity Ref.params (vparams Ref.params v) n) o =
+      if (n < Spec.minLength v ∨ (o.conservative = true ∧ n < Spec.minLengthConservative v)) ∧
+          ¬ o.allowSmall = true then some .tooSmall else none := by
+  rw [validity_ref v hv]
+  unfold Spec.minLength Spec.minLengthConservative
+  apply lengthGate_shape _ _ _ _ _ hn
+  split <;> omega
+
+theorem countP_ne_zero_toNat (l : List UInt32) :
+    l.countP (· ≠ 0) = (l.map UInt32.toNat).countP (· ≠ 0) := by
+  induction l with
+  | nil => rfl
+  | cons x xs ih =>
+    simp only [List.map_cons, List.countP_cons, ih]
+    have : (x ≠ 0) ↔ (x.toNat ≠ 0) := by
+      constructor
+      · intro h h'; exact h (UInt32.toNat_inj.mp (by simpa using h'))
+      · intro h h'; exact h (by rw [h']; rfl)
+    by_cases hx : x = 0 <;> simp_all
+
+theorem qratio_pack : ∀ r1 r2 : Fin 16,
+    (UInt8.ofNat r1.val &&& (0x0f : UInt8)) ||| ((UInt8.ofNat r2.val &&& (0x0f : UInt8)) <<< (4 : UInt8))
+      = UInt8.ofNat (r2.val * 16 + r1.val) := by
+  decide +kernel
+
+theorem spec_ratio_lt (o : Options) (q q3 : Nat) : Spec.ratio o q q3 < 16 := by
+  unfold Spec.ratio F32.ratio
+  split <;> exact Nat.mod_lt _ (by decide)
+
+theorem qratio_ref (o : Options) (q q3 : UInt32) :
+    qratio Ref.params o q q3 = UInt8.ofNat (Spec.ratio o q.toNat q3.toNat) := by
+  unfold qratio Spec.ratio
+  have hc : Ref.params.raw.qratioConsts = (100, 16, 100, 16) := rfl
+  simp only [hc]
+  split <;> rfl
+
+theorem bucketData_length (cfg : Cfg) (v : Variant) (hv : v.Valid) (data : List UInt8)
+    (hlen : data.length ≤ 2 ^ 32) :
+    (bucketData v (ideal (refStep cfg v) (initAcc cfg v) data)).length = v.buckets := by
+  have := congrArg List.length (bucketData_ideal cfg v hv data hlen)
+  simpa [Spec.buckets] using this
+
+theorem vparams_minNonzero (v : Variant) (hv : v.Valid) :
+    (vparams Ref.params v).minNonzero = Spec.minNonzero v := by
+  rcases valid_cases hv with h | h | h | h | h <;> subst h <;> rfl
+
+theorem u32_eq_zero_iff (x : UInt32) : x = 0 ↔ x.toNat = 0 := by
+  constructor
+  · intro h; rw [h]; rfl
+  · intro h; exact UInt32.toNat_inj.mp (by simpa using h)
+
+theorem qratios_byte (o : Options) (q1 q2 q3 : UInt32) :
+    (qratio Ref.params o q1 q3 &&& (0x0f : UInt8)) ||| ((qratio Ref.params o q2 q3 &&& (0x0f : UInt8)) <<< (4 : UInt8))
+      = UInt8.ofNat (Spec.ratio o q2.toNat q3.toNat * 16 + Spec.ratio o q1.toNat q3.toNat) := by
+  rw [qratio_ref, qratio_ref]
+  exact qratio_pack ⟨_, spec_ratio_lt o q1.toNat q3.toNat⟩ ⟨_, spec_ratio_lt o q2.toNat q3.toNat⟩
+
+theorem finalizeCore_ref (cfg : Cfg) (v : Variant) (hv : v.Valid) (o : Options) (data : List UInt8)
+    (hlen : data.length ≤ 2 ^ 32) (lv : Nat) :
+    finalizeCore aggregateNaive Ref.params cfg v (ideal (refStep cfg v) (initAcc cfg v) data) o lv =
+      (let b := Spec.buckets v data
+       let q := Spec.quartiles b
+       if q.2.2 = 0 ∧ ¬ o.allowQuarter = true then Outcome.err GenError.threeQuarterEmpty
+       else
+         let q' := if q.2.2 = 0 then (1, 1, 1) else q
+         if b.countP (· ≠ 0) < Spec.minNonzero v ∧ ¬ (o.allowHalf = true ∨ o.allowQuarter = true) then
+           Outcome.err GenError.halfEmpty
+         else
+           Outcome.ok { checksum := Spec.checksum v data
+                      , lvalue := UInt8.ofNat lv
+                      , qratios := UInt8.ofNat (Spec.ratio o q'.2.1 q'.2.2 * 16 + Spec.ratio o q'.1 q'.2.2)
+                      , body := Spec.body v b q'.1 q'.2.1 q'.2.2 }) := by
+  have hB := bucketData_ideal cfg v hv data hlen
+  have hL := bucketData_length cfg v hv data hlen
+  obtain ⟨h256, h4, hge⟩ := buckets_le_256 hv
+  have hsel := Select.selectNth_quartiles (bucketData v (ideal (refStep cfg v) (initAcc cfg v) data))
+    v.buckets hL h4 hge
+  simp only [] at hsel
+  have hck : (ideal (refStep cfg v) (initAcc cfg v) data).acc.1 = Spec.checksum v data := by
+    rw [ideal_acc_ref cfg v hv data, List.take_of_length_le hlen]
+  have hbody : ∀ q1 q2 q3 : UInt32, aggregateNaive (bucketData v (ideal (refStep cfg v) (initAcc cfg v) data)) q1 q2 q3
+      = Spec.body v (Spec.buckets v data) q1.toNat q2.toNat q3.toNat := by
+    intro q1 q2 q3
+    rw [Aggregate.aggregateNaive_eq_body v _ (by rw [hL]; unfold Variant.bodyLen; omega), hB]
+  unfold finalizeCore
+  simp only [hck, hbody, vparams_minNonzero v hv, countP_ne_zero_toNat, hB, qratios_byte]
+  -- name the selected quartiles
+  generalize hQ : selectQuartiles (bucketData v (ideal (refStep cfg v) (initAcc cfg v) data)) v.buckets = Q
+  have hQ' : Q = ((selectNth (selectNth (bucketData v (ideal (refStep cfg v) (initAcc cfg v) data)) (v.buckets / 2 - 1)).1 (v.buckets / 4 - 1)).2.1,
+      (selectNth (bucketData v (ideal (refStep cfg v) (initAcc cfg v) data)) (v.buckets / 2 - 1)).2.1,
+      (selectNth (selectNth (bucketData v (ideal (refStep cfg v) (initAcc cfg v) data)) (v.buckets / 2 - 1)).2.2 (v.buckets / 4 - 1)).2.1) := by
+    rw [← hQ]; rfl
+  rw [hB] at hsel
+  obtain ⟨hq, ho1, ho2⟩ := hsel
+  obtain ⟨Q1, Q2, Q3⟩ := Q
+  simp only [Prod.mk.injEq] at hQ'
+  obtain ⟨e1, e2, e3⟩ := hQ'
+  rw [← e1] at hq ho1
+  rw [← e2] at hq ho1 ho2
+  rw [← e3] at hq ho2
+  rw [← hq]
+  simp only []
+  unfold distributionGate adjustQuartiles
+  by_cases hz : Q3 = 0
+  · have hz' : Q3.toNat = 0 := (u32_eq_zero_iff Q3).mp hz
+    cases haq : o.allowQuarter <;> cases hah : o.allowHalf <;> simp [hz, hz']
+  · have hz' : ¬ Q3.toNat = 0 := fun h => hz ((u32_eq_zero_iff Q3).mpr h)
+    have hord : Q1 ≤ Q2 ∧ Q2 ≤ Q3 := ⟨ho1, ho2⟩
+    cases haq : o.allowQuarter <;> cases hah : o.allowHalf <;> simp [hz, hz', hord] <;>
+      (split <;> simp_all)
+
+/-- **Refinement.**  One-shot generation at the reference parameters equals the reference algorithm. -/
+theorem generate_ref_eq_spec (cfg : Cfg) (v : Variant) (hv : v.Valid) (o : Options) (data : List UInt8) :
+    generate Ref.params cfg v o data = specOutcome (Spec.tlsh v o data) := by
+  unfold generate genFinalize
+  rw [genUpdate_init]
+  unfold genFinalizeWith
+  rw [finLen_ideal]
+  by_cases hbig : data.length > 4224281216
+  · have hval : validity Ref.params (vparams Ref.params v)
+        (if data.length < 2 ^ 32 then data.length else 2 ^ 32 - 1) = .tooLarge :=
+      (validity_ref_tooLarge_iff v hv _).mpr (by split <;> omega)
+    rw [hval]
+    have hs : Spec.tlsh v o data = .error .tooLarge := by
+      unfold Spec.tlsh
+      simp [Ref.maxLength, hbig]
+    rw [hs]
+    cases hc : o.conservative <;> simp [lengthGate, Validity.isErrOn, specOutcome]
+  · have hn : data.length ≤ 4224281216 := by omega
+    have h32 : data.length < 2 ^ 32 := by omega
+    simp only [h32, if_true]
+    rw [lengthGate_ref v hv o _ hn]
+    unfold Spec.tlsh
+    have hmax : ¬ data.length > Ref.maxLength := by unfold Ref.maxLength; omega
+    simp only [hmax, if_false]
+    by_cases hsmall : (data.length < Spec.minLength v ∨
+        (o.conservative = true ∧ data.length < Spec.minLengthConservative v)) ∧ ¬ o.allowSmall = true
+    · rw [if_pos hsmall, if_pos hsmall]; rfl
+    · rw [if_neg hsmall, if_neg hsmall]
+      rw [Length.encodeLength_ref cfg _ h32]
+      simp only [hn, if_true, encodeThen]
+      rw [finalizeCore_ref cfg v hv o data (by omega)]
+      simp only []
+      split
+      · rfl
+      · split
+        · rfl
+        · rfl
 
 end TlshVerif.Model
